@@ -97,6 +97,7 @@ func main() {
 		fmt.Fprintf(os.Stderr, "unknown property %q\n", *prop)
 		os.Exit(2)
 	}
+	pd.Mutants = append(pd.Mutants, mutantSets[pd.ID]...)
 	if *listMut {
 		for _, m := range pd.Mutants {
 			fmt.Printf("%s\t%s\t%s\n", m.ID, m.File, m.Expect)
